@@ -8,6 +8,7 @@ from . import gamedata
 from .world import World
 
 _RE_INPUT = re.compile(r"^(?:\[[^\]]*\]\s+)?(\w+) \(value=(-?\d+) \(input\)\)(?: -> (\S+))?")
+_RE_LINE = re.compile(r"^\[[^\]:]*:(\d+)\]")
 _RE_ANCHOR = re.compile(r"^(?:\[[^\]]*\]\s+)?(\w+) \(output anchor\)(?: -> (\S+))?")
 _RE_ANY = re.compile(r"^(?:\[[^\]]*\]\s+)?(.+?)(?: \(([^()]*(?:\([^()]*\))?[^()]*)\))?(?: -> (\S+))?$")
 
@@ -15,8 +16,17 @@ _RE_ANY = re.compile(r"^(?:\[[^\]]*\]\s+)?(.+?)(?: \(([^()]*(?:\([^()]*\))?[^()]
 class Obs:
     """Observation points of one blueprint."""
 
-    def __init__(self, w: World):
+    def __init__(self, w: World, src: str | None = None):
+        """src (optional): the program text; a constant that merely carries an input's NAME (a
+        function-local `Signal i3 = x > k;` folded to a constant while an outer input is also
+        called i3) is then told apart from the input by the source line in its description."""
         self.w = w
+        decl_line: dict[str, int] = {}
+        if src is not None:
+            for ln, text in enumerate(src.split("\n"), 1):
+                m = re.match(r"^Signal (\w+) = ", text)
+                if m and m.group(1) not in decl_line:
+                    decl_line[m.group(1)] = ln
         self.inputs: dict[str, list[int]] = {}
         self.anchors: dict[str, list[tuple[int, str | None]]] = {}
         self.by_name: dict[str, list[int]] = {}
@@ -27,6 +37,11 @@ class Obs:
             if e.kind == "const":
                 m = _RE_INPUT.match(d)
                 if m:
+                    lm = _RE_LINE.match(d)
+                    if (m.group(1) in decl_line and lm
+                            and int(lm.group(1)) != decl_line[m.group(1)]):
+                        self.by_name.setdefault(m.group(1), []).append(e.num)
+                        continue
                     self.inputs.setdefault(m.group(1), []).append(e.num)
                     continue
                 m = _RE_ANCHOR.match(d)
